@@ -74,6 +74,14 @@ class DTree:
             return self.ev(t[2], args, atom)
         if k == 'tuple':
             return tuple(self.ev(x, args, atom) for x in t[1])
+        if k == 'agg' and t[1] == 'array':
+            return tuple(self.ev(x, args, atom) for x in t[2])
+        if k == 'index':
+            arr = self.ev(t[1], args, atom)
+            i_ = self.ev(t[2], args, atom)
+            if isinstance(arr, tuple) and isinstance(i_, int) and 0 <= i_ < len(arr):
+                return arr[i_]
+            raise Stuck('index %r of %r' % (i_, arr))
         if k == 'field':
             base = t[1]
             if base[0] == 'bin' and t[2] in ('0', '1'):
@@ -117,6 +125,13 @@ class DTree:
                 return int(self.ev(t[2][0], args, atom) == self.ev(t[2][1], args, atom))
             if name.endswith('cmp::PartialEq::ne'):
                 return int(self.ev(t[2][0], args, atom) != self.ev(t[2][1], args, atom))
+            if name.split('::')[-1] == 'contains' and len(t[2]) == 2:
+                r_ = strip(t[2][0])
+                if r_[0] == 'adt' and r_[1].endswith('Range') and r_[3] == ('start', 'end'):
+                    x_ = self.ev(t[2][1], args, atom)
+                    return int(self.ev(r_[4][0], args, atom) <= x_ < self.ev(r_[4][1], args, atom))
+                if r_[0] == 'adt' and r_[1].endswith('RangeInclusive'):
+                    pass
             if name in self.facts.bodies:
                 sub = {i + 1: self.ev(x, args, atom) for i, x in enumerate(t[2])}
                 v, _ = self.decide(name, sub, atom)
